@@ -11,7 +11,7 @@ EXPLANATION = (
     "firewall/projection spreads dirtiness and schedules backward projection only when its fingerprint changed; the in-lock double check returns "
     "without work when the node is already verified at the caller's epoch; repair re-executes only on a Recompute decision - a backward-projection propagation is verified (pedantically), not forced, and the pending-projection marker is tested for presence only at both sites (protocol since D19); "
     "an edge that is not dirty is skipped unless the repair is pedantic or the node is a projection; the executor has exactly two call sites and "
-    "refresh is the only one outside execute_query. Minimality per invocation over all histories is NOT decided.")
+    "refresh is the only one outside execute_query. Minimality per invocation over all histories is NOT decided. C03.l every stored fingerprint is the hash of the value stored next to it, and a clean keeps the value fingerprint (C01.h).")
 
 NOT_DECIDED = [
     "that an executor runs only if a dependency it read last time has a different value now — judged per invocation over all programs and histories",
@@ -345,4 +345,10 @@ def run(ctx):
     # keep every callee's entry, else the next verification re-executes a query whose inputs did not change (C01.s as C03.k)
     ctx.alias = {"C01.s": "C03.k"}
     ctx.run_clause("C03.k", C01.c01s)
+    ctx.alias = {}
+    # early cut-off compares stored fingerprints: a fingerprint that is not the hash of what is stored next to it (a clean
+    # that rebuilds the node info with the value and firewall fingerprints mixed up) makes every caller see a change that
+    # did not happen and re-execute without justification (C01.h as C03.l)
+    ctx.alias = {"C01.h": "C03.l"}
+    ctx.run_clause("C03.l", C01.c01h)
     ctx.alias = {}
